@@ -15,7 +15,7 @@ EXPLANATION = (
     "the identity. (R3) PATH-PARAM - every Parameter::Path gets required = constant true (followed one call level), and "
     "path key and path parameters are computed from the same Uri, both walking UriSegment::Variable of uri.path. "
     "(R5) BASE-CLOSED - the base's paths are replaced wholesale (shared with C14) and the kept component maps are reported as able to hold dangling references; (R6) OPID - every path segment and the method contribute to the synthesised operationId, the segment label is injective (no case folding, literal/variable marked, empty segment labelled). Distinct variable names in a path and the YAML round trip are not decided.")
-EXPLANATION += ' Strengthened after the seeded rounds: the functions applied between a name and its sink agree on the emit side and the register side (R1); uri_params returns the list it pushed to, with no de-duplicating or selecting step (R3). Also (R3): uri_params is called on every path to a return of relation_path_item, and a literal URI segment is the verbatim text of its path element. R6 also requires every id returned by xfer_id to depend on the method. (R7) CONCAT-PATH (shared C02.R12); (R8) MARKER (shared C09.R1). (R9) FINITE - numeric annotation values that reach the document are finite (one known finding).'
+EXPLANATION += " Strengthened after the seeded rounds: the functions applied between a name and its sink agree on the emit side and the register side (R1); uri_params returns the list it pushed to, with no de-duplicating or selecting step (R3). Also (R3): uri_params is called on every path to a return of relation_path_item, and a literal URI segment is the verbatim text of its path element. R6 also requires every id returned by xfer_id to depend on the method. (R7) CONCAT-PATH (shared C02.R12); (R8) MARKER (shared C09.R1). (R9) FINITE - numeric annotation values that reach the document are finite (one known finding). (R10) STATUS-LEXEME (as C04.R12: the lexer's digit class agrees with the conversion)."
 TECHNIQUE = "static analysis: constructor census + MIR dominance/polarity agreement + constant provenance"
 
 
@@ -603,6 +603,8 @@ def r9_finite(c, facts):
 
 
 def run(c, facts):
+    import lexrules
+    c.run(lambda c: lexrules.status_digits(c, facts, 'C03.R10'))
     c.run(r9_finite, facts)
     import c02 as _c02
     import c09 as _c09
